@@ -36,6 +36,8 @@ A program is plain data:
   ('annot_src'); SynthDef.wrap rejects it as a whole (ValueError, caught by
   the calling graph function), so it contributes NOTHING to the layout; its
   optional 'fallback' func is wrapped instead and is an ordinary function.
+  A func with 'alias_of': other is the SAME python function as `other`
+  wrapped once more (own rates / prepend values, same parameter list).
 """
 
 import struct
@@ -106,7 +108,12 @@ def param_rate_and_lags(param, entry, size):
 
 
 def layout(prog):
-    """-> dict(P=total slots, slots={name: Slot}, order=[names in declaration
+    """Slots are keyed by (function entry, parameter name): the same control
+    name may be declared more than once in one definition (a helper wrapped
+    twice, a helper reusing a name of the enclosing function); every declared
+    parameter occurrence is a control of its own with its own slots and its
+    own name-table entry.  by_name holds the names declared exactly once.
+    -> dict(P=total slots, slots={key: Slot}, order=[keys in declaration
     order], defaults=[P floats], groups=[(func, rate, start, size, lagged)])"""
     specs = prog.get('specs') or {}
     cursor = 0
@@ -126,10 +133,11 @@ def layout(prog):
             s.defaults, s.lags, s.is_array, s.decl = vals, lags, is_array, k
             s.index = None
             mine.append(s)
-            order.append(p['name'])
-            if p['name'] in slots:
-                raise ValueError('duplicate control name ' + p['name'])
-            slots[p['name']] = s
+            key = (fname, p['name'])
+            order.append(key)
+            if key in slots:
+                raise ValueError('function entry built twice: ' + fname)
+            slots[key] = s
         for g in GROUP_ORDER:
             members = [s for s in mine if s.rate == g]
             if not members:
@@ -141,8 +149,12 @@ def layout(prog):
                 defaults.extend(s.defaults)
             lagged = g == 'kr' and any(l != 0 for s in members for l in s.lags)
             groups.append((fname, g, start, cursor - start, lagged))
-    return {'P': cursor, 'slots': slots, 'order': order,
-            'defaults': defaults, 'groups': groups}
+    count = {}
+    for s in slots.values():
+        count[s.name] = count.get(s.name, 0) + 1
+    by_name = {s.name: s for s in slots.values() if count[s.name] == 1}
+    return {'P': cursor, 'slots': slots, 'order': order, 'by_name': by_name,
+            'name_count': count, 'defaults': defaults, 'groups': groups}
 
 
 def variants(prog, lay):
@@ -150,7 +162,7 @@ def variants(prog, lay):
     for vname, pairs in (prog.get('variants') or {}).items():
         vals = list(lay['defaults'])
         for pname, v in pairs.items():
-            s = lay['slots'][pname]
+            s = lay['by_name'][pname]    # variants only name unique controls
             vs = list(v) if isinstance(v, (list, tuple)) else [v]
             if len(vs) > s.size:
                 raise ValueError('variant value longer than the control')
